@@ -403,6 +403,33 @@ func runC11(p *eng.Prog, r *eng.Report, tier string) {
 		f := c.fn("C11.7", "jid", name)
 		if f != nil {
 			c.r.Check("C11.7", f, "encodes String()", "P: XML encoding emits String()", f.Pos(), len(f.Calls("jid.JID.String")) == 1, "no call of String")
+			// ... and emits it as it is: the encoder escapes attribute values and
+			// character data itself, an escaped or otherwise rewritten copy does
+			// not come back as the same address
+			g := f.Graph()
+			nv := 0
+			for _, cl := range f.WalkLits("encoding/xml.Attr") {
+				v := structLitField(cl, "Value")
+				if v == nil {
+					continue
+				}
+				nv++
+				pt, _ := g.Where(cl)
+				c.r.Check("C11.7", f, "attribute value emitted", "P: the attribute value is String() itself", cl.Pos(), f.Norm(v, &pt) == "jid.JID.String[recv]()", "value is "+f.Norm(v, &pt))
+			}
+			f.WalkBody(func(nd ast.Node) bool {
+				cl, ok := nd.(*ast.CallExpr)
+				if !ok || len(cl.Args) != 1 {
+					return true
+				}
+				if tv, ok := f.Info().Types[cl.Fun]; ok && tv.IsType() && eng.TypeStr(tv.Type) == "encoding/xml.CharData" {
+					nv++
+					pt, _ := g.Where(cl)
+					c.r.Check("C11.7", f, "character data emitted", "P: the character data is String() itself", cl.Pos(), f.Norm(cl.Args[0], &pt) == "jid.JID.String[recv]()", "text is "+f.Norm(cl.Args[0], &pt))
+				}
+				return true
+			})
+			c.r.Floor("C11.7", "emitted values in "+name, nv, 1)
 		}
 	}
 	// ---- C11.4b the canonical domainpart has no trailing label separator ----------------
